@@ -52,15 +52,22 @@ Definition keyspec_of_class (c : kcmp) : keyspec :=
 Definition exact_ftrs (l : list ftr) : bool := forallb (fun x : ftr => String.eqb (snd x) "") l.
 Definition kcmp_exact (c : kcmp) : bool :=
   match c with
-  | CFields eq ne hash => exact_ftrs eq && exact_ftrs ne && exact_ftrs hash
-  | CHashOnly h => exact_ftrs h
+  | CFields eq ne hash => exact_ftrs eq && exact_ftrs ne      (* a coarser hash changes nothing a program can observe *)
   | _ => true
   end.
 
 Definition class_named (n : string) (cs : list kclass) : option kcmp :=
   option_map snd (find (fun c : kclass => String.eqb n (fst c)) cs).
 Definition class_ok_named (cs : list kclass) (n : string) : bool :=
-  match class_named n cs with Some c => kcmp_ok c && kcmp_exact c | None => false end.
+  match class_named n cs with Some c => kcmp_ok c | None => false end.
+
+(** the class compares exactly the attributes [k] (neither identity nor anything coarser): needed where references reach the
+    writer as equal-but-not-identical objects ([Bone.__deepcopy__] makes a new object per reference) *)
+Definition class_eq_is (cs : list kclass) (n : string) (k : list ftr) : bool :=
+  match class_named n cs with
+  | Some (CFields eq _ _) => ftr_subset eq k && ftr_subset k eq
+  | _ => false
+  end.
 
 Definition tables_ok (ts : list dedup_table) : bool := forallb dedup_ok ts.
 Definition table_names (ts : list dedup_table) : list string := map (fun t : dedup_table => let '(n, _, _, _) := t in n) ts.
